@@ -195,6 +195,20 @@ func (u *Universe) index() {
 	}
 }
 
+// FuncsUnder lists every function of the program (dependencies included) whose
+// package path is prefix or below it, in a stable order.
+func (u *Universe) FuncsUnder(prefix string) []*ssa.Function {
+	var out []*ssa.Function
+	for fn := range u.allFuncs {
+		p := u.FuncPkgPath(fn)
+		if p == prefix || strings.HasPrefix(p, prefix+"/") {
+			out = append(out, fn)
+		}
+	}
+	sort.Slice(out, func(i, j int) bool { return out[i].String() < out[j].String() })
+	return out
+}
+
 func (u *Universe) funcKey(fn *ssa.Function) string {
 	pkg := u.FuncPkgPath(fn)
 	return pkg + "::" + u.RelName(fn)
